@@ -39,7 +39,8 @@ def main():
         if r.returncode:
             r = sh(f'git -C /repo apply --3way {os.path.join(d, "patch.diff")}')
         if r.returncode:
-            sh('git -C /repo checkout -- .')
+            # (a failed 3-way apply leaves unmerged paths behind)
+            sh('git -C /repo reset -q --hard HEAD')
             meta['final'] = {'head': head, 'applies': False,
                              'error': r.stderr[-200:]}
             json.dump(meta, open(mp, 'w'), indent=1)
@@ -71,7 +72,7 @@ def main():
                   {c: v.get('mechanisms') for c, v in fin['checks'].items()})
         finally:
             sh('git -C /repo checkout -- .')
-            sh('git -C /repo reset -q')
+            sh('git -C /repo reset -q --hard HEAD')
     return 0
 
 
